@@ -6,7 +6,6 @@ package c08
 
 import (
 	"fmt"
-	"os"
 	"sort"
 	"strings"
 	"sync"
@@ -686,5 +685,5 @@ func TestCheck(t *testing.T) {
 	})
 	r.Count("base_scenarios", int64(len(base)))
 	r.Count("fault_runs", nfault)
-	os.Exit(r.Finish(50))
+	h.Exit(r.Finish(50))
 }
